@@ -3,9 +3,9 @@ from harness import core
 from harness.props import sqlcommon as SC
 
 PID = 'C03'
-THEOREMS = ['PyDBML.C03.read_render_script_all', 'PyDBML.C03.read_render_enum', 'PyDBML.C03.read_render_script', 'PyDBML.C03.read_render_table', 'PyDBML.C03.read_render_column', 'PyDBML.C03.same_ddl_same_content',
+THEOREMS = ['PyDBML.C03.read_render_script_all', 'PyDBML.C04.read_render_index', 'PyDBML.C03.read_render_enum', 'PyDBML.C03.read_render_script', 'PyDBML.C03.read_render_table', 'PyDBML.C03.read_render_column', 'PyDBML.C03.same_ddl_same_content',
             'PyDBML.C03.script_structure', 'PyDBML.C03.column_pk_component', 'PyDBML.C03.default_component', 'PyDBML.C15.sql_column_ignores_props']
-MODULES = ['PyDBMLProofs.Props.C03', 'PyDBMLProofs.Props.C03Read', 'PyDBMLProofs.Props.C04Read', 'PyDBMLProofs.Props.C03Script']
+MODULES = ['PyDBMLProofs.Props.C03', 'PyDBMLProofs.Props.C03Read', 'PyDBMLProofs.Props.C04Read', 'PyDBMLProofs.Props.C03Script', 'PyDBMLProofs.Props.C03Index']
 
 
 def kf_replay(f):
@@ -102,6 +102,91 @@ def part_reader(ctx, drv):
             ctx.fail('the proved DDL reader does not read from db.sql what the model holds (C03Read.read_render_script)', case,
                      detail={'expected': exp, 'read': got}, sql=r[1])
     part_script(ctx, drv)
+    part_index(ctx, drv)
+
+
+INDEX_NAMES = [None, None, '', 'idx', 'by name', 'ix-1', "o'k"]
+
+
+def gen_index_spec(rng):
+    tables = gen_reader_spec(rng)
+    for t in tables:
+        t['indexes'] = []
+        for _ in range(rng.choice([0, 1, 1, 2])):
+            n = rng.choice([1, 1, 2, min(3, len(t['columns']))])
+            n = max(1, min(n, len(t['columns'])))
+            t['indexes'].append({'cols': rng.sample(range(len(t['columns'])), n), 'unique': rng.random() < .4,
+                                 'name': rng.choice(INDEX_NAMES), 'type': rng.choice([None, None, 'btree', 'hash', 'BTREE'])})
+    return tables
+
+
+def index_expect(tables):
+    out = []
+    for t in tables:
+        q = '"%s"' % t['name'] if t['schema'] == 'public' else '"%s"."%s"' % (t['schema'], t['name'])
+        out.append([{'unique': ix['unique'], 'name': ix['name'] or None, 'table': q, 'using': ix['type'].upper() if ix['type'] else None,
+                     'cols': [t['columns'][i]['name'] for i in ix['cols']]} for ix in t['indexes']])
+    return out
+
+
+def index_job(tables):
+    from pydbml import Database
+    from pydbml.classes import Table, Column, Index
+    db = Database()
+    out = []
+    for t in tables:
+        tb = Table(t['name'], schema=t['schema'])
+        for c in t['columns']:
+            tb.add_column(Column(c['name'], c['type'], pk=c['pk']))
+        ixs = []
+        for ix in t['indexes']:
+            o = Index([tb.columns[i] for i in ix['cols']], name=ix['name'], unique=ix['unique'], type=ix['type'])
+            tb.add_index(o)
+            ixs.append(o)
+        db.add(tb)
+        row = []
+        for o in ixs:
+            try:
+                row.append(['ok', o.sql])
+            except Exception as e:      # noqa
+                row.append(['exc', type(e).__name__])
+        out.append(row)
+    try:
+        whole = ['ok', db.sql]
+    except Exception as e:              # noqa
+        whole = ['exc', type(e).__name__]
+    return {'indexes': out, 'db': whole}
+
+
+def part_index(ctx, drv):
+    n = 200 if ctx.tier == 'quick' else 2000
+    specs = [gen_index_spec(ctx.rng) for _ in range(n)]
+    res = core.pmap(index_job, specs)
+    flat = [(si, ti, k) for si, r in enumerate(res) for ti, row in enumerate(r['indexes']) for k, x in enumerate(row) if x[0] == 'ok']
+    read = drv.ask_many({'op': 'readindex', 'text': res[si]['indexes'][ti][k][1]} for si, ti, k in flat)
+    got = {key: m.get('ok') for key, m in zip(flat, read)}
+    for si, (tables, r) in enumerate(zip(specs, res)):
+        ctx.case(core.h(tables), True)
+        exp = index_expect(tables)
+        case = {'op': 'readindex', 'tables': tables}
+        stmts = []
+        for ti, row in enumerate(r['indexes']):
+            for k, x in enumerate(row):
+                ctx.count('index-reader:' + x[0])
+                if x[0] != 'ok':
+                    ctx.fail('index.sql raises', case, detail=x[1])
+                    continue
+                stmts.append(x[1])
+                if got[(si, ti, k)] != exp[ti][k]:
+                    ctx.fail('the proved CREATE INDEX reader does not read from index.sql what the index says (C03Index.read_render_index)',
+                             case, detail={'expected': exp[ti][k], 'read': got[(si, ti, k)], 'table': ti, 'index': k}, sql=x[1])
+        if r['db'][0] == 'ok':
+            lines = [l for l in r['db'][1].split('\n') if l.startswith('CREATE INDEX ') or l.startswith('CREATE UNIQUE INDEX ')]
+            if lines != stmts:
+                ctx.fail('db.sql does not hold exactly one CREATE INDEX statement per index, in order', case,
+                         detail={'in db.sql': lines, 'index.sql': stmts})
+        else:
+            ctx.fail('db.sql raises', case, detail=r['db'][1])
 
 
 ENUM_ITEMS = ['new', 'done', 'in progress', "it's", 'a,', 'x', 'ÜBER', '1', 'with "quotes"']
@@ -220,6 +305,19 @@ def main(tier, seed):
 def replay(path):
     import json
     c = json.load(open(path)).get('case', {})
+    if c.get('op') == 'readindex':
+        from harness.driver import Driver
+        r = index_job(c['tables'])
+        exp = index_expect(c['tables'])
+        bad = 0
+        with Driver() as d:
+            for ti, row in enumerate(r['indexes']):
+                for k, x in enumerate(row):
+                    got = d.ask({'op': 'readindex', 'text': x[1]}).get('ok') if x[0] == 'ok' else None
+                    print(ti, k, x, '\n   read    :', got, '\n   expected:', exp[ti][k])
+                    bad += x[0] != 'ok' or got != exp[ti][k]
+        print('db.sql:', r['db'])
+        return 1 if bad else 0
     if c.get('op') == 'readscript':
         from harness.driver import Driver
         r = script_job(c['spec'])
